@@ -266,6 +266,7 @@ def prep(ctx, R="R-C03-prep"):
     loops = [n for n in init.body_nodes() if isinstance(n, ast.For) and astq.text(n.iter) == "range(bank.num_filts)"]
     ctx.need(len(loops) == 1, R, "filter preparation loop not found")
     lp = loops[0]
+    _roll_value(ctx, R, init, lp)
     apps = [x for x in astq.calls_in(lp) if astq.attr_call(x, "append") and astq.text(x.func.value) == "self._filts"]
     ok = len(apps) == 1 and astq.eq_text(apps[0].args[0], "self._compute_dft(filt[:self._max_support])")
     ctx.check(ok, R, init, apps[0] if apps else MISSING(lp), "every filter is clamped to max_support and transformed by _compute_dft, in bank order",
@@ -290,7 +291,6 @@ def prep(ctx, R="R-C03-prep"):
     mids = [n for n in ast.walk(lp) if isinstance(n, ast.Assign) and astq.is_name(n.targets[0], "mid_samp")]
     ctx.check(len(mids) == 1 and astq.eq_text(mids[0].value, "(left_samp+right_samp)//2"), R, init, mids[0] if mids else MISSING(lp),
               "the centre of a filter's support is (left + right) // 2", structural=True)
-    _roll_value(ctx, R, init, lp)
     # energy impulse
     en = [n for n in init.body_nodes() if isinstance(n, ast.If) and astq.text(n.test) == "include_energy"]
     ctx.need(len(en) == 1, R, "energy branch not found in SI __init__")
@@ -359,7 +359,10 @@ def _roll_value(ctx, R, init, lp):
             if v == "equal":
                 continue
             sc = ", ".join("%s is %s" % (S.show(t).split("(")[0].lstrip("."), l == "T") for l, t in tests) or "every bank"
-            if v == "differ" and not S.has_unknown(leaf):
+            calls_, _ = SC.vocabulary(leaf)
+            known = {"getitem", ".supports", "max", "min", "comp", "tuple", "list", "int"} | {c_ for c_ in SC.vocabulary(want)[0]}
+            outside = {c_ for c_ in calls_ if not str(c_).startswith("kw:")} - known
+            if v == "differ" and not S.has_unknown(leaf) and not outside:
                 ctx.bad(R, init, r, "[%s] the filter is rolled by %s ; documented: %s" % (sc, S.show(leaf)[:200], S.show(want)[:200]), what, robust=True)
             else:
                 ctx.error(R, "cannot decide [%s] %s: %s" % (sc, what, S.show(leaf)[:160]))
